@@ -19,7 +19,56 @@ DDL_TRUST = [
     "any statement form not listed makes the check exit 2 instead of guessing",
 ]
 
+INGEST_COMPONENTS = {
+    "real": ["writer: mux router + every ingest route, middleware chain (WithOverallContextMiddleware, unsnappy, parser context)", "all decoders in writer/utils/unmarshal (Loki JSON/protobuf, remote-write, Influx, Datadog logs/metrics, OTLP logs/traces, Zipkin JSON/ndjson)",
+             "controller doParse/doPush, retry-go, promise", "InsertServiceV2 / RoundRobin / Multimodal for all six tables, column pools", "fingerprint/day cache (fastcache + 30 min reset ticker), static service registry, CreateStaticServiceRegistry wiring (OnBeforeInsert)",
+             "Go runtime timers/contexts on the fake clock of testing/synctest"],
+    "stub": ["ClickHouse insert face (zz_verif/chfake): decodes every block, rejects non-rectangular blocks like the server, injects per-INSERT/ping/connect faults"],
+    "not_simulated": ["net/http server loop and sockets (handlers are entered at router.ServeHTTP)", "QrynWriterPlugin.Initialize (dials sockets, health checks)", "process watchdog os.Exit is defused after the real wiring started it", "pprof /ingest and Elastic routes are only driven with hostile bodies (C05)"],
+    "scheduler": "baton scheduler over AST-inserted yields (sim/cmd/instr): every go statement, mutex operation, blocking channel statement and receive-only select of writer/ and reader/ is a scheduling point decided from the seeded tape",
+}
+
+INGEST_TRUST = ["the insert face applies a block iff Do returns nil (or the fault kind is error-after-apply)", "a block whose columns disagree on the row count is rejected",
+                "synctest's fake clock and quiescence detection", "unmanaged stretches (inside dependencies) run under the single-P runtime order"]
+
+
+def ingest(pid, technique, level_text, level_note, rule, probes, stall=False, quick_checks=60, design_ref=""):
+    return {
+        "pkg": "ingestsim", "test": "TestIngest", "instrument": True, "instr_pkgs": ["./writer/...", "./reader/..."], "level": "exploration",
+        "quick": {"workers": 16, "checks": quick_checks, "shrink": "45s", "worker_timeout": 1500},
+        "thorough": {"workers": 16, "checks": 400, "shrink": "120s", "budget": 1500, "worker_timeout": 3000},
+        "technique": technique, "level_text": level_text, "level_note": level_note, "rule": rule, "probes": probes,
+        "components": INGEST_COMPONENTS, "trusted_base": INGEST_TRUST, "stall_is_violation": stall, "stall_timeout": 90, "design_ref": design_ref,
+        "assumptions": ["ack = first status byte written by the handler; durable = Do returned nil before that event (global event order)"],
+    }
+
+
+INGEST_RULE = ("a case is one seeded run of the whole writer in a synctest bubble: 1-4 concurrent clients x 1-5 pushes over 13 wire protocols, swarm configuration "
+               "(flush interval, queue size, parallel workers, retries, write timeout, cluster mode, time zone, start instant), a per-INSERT/ping/connect fault plan that stops at a heal instant, "
+               "body fragmentation, and a schedule tape consumed by the baton scheduler. Non-trivial = a fault fired or the scheduler had at least one decision with >= 2 runnable goroutines; "
+               "distinct = distinct hash of the grant sequence projected to (goroutine role, site) + number of INSERT blocks.")
+
 PROPS = {
+    "C01": ingest("C01", "deterministic simulation: baton-scheduled real writer on a fault-injecting ClickHouse stub; ack ledger oracle over the recorded history, bounded-progress oracle after the last fault",
+                  "Seeded exploration of interleavings of concurrent pushes with timer/size/forced flushes and of per-INSERT outcomes; every 2xx is checked against the log of successful INSERT blocks ordered by global event numbers, every request must be answered exactly once within a configuration-derived bound after faults stop. Sampling, not enumeration.",
+                  "schedule points are the instrumented synchronisation operations; rows are attributed by run-unique tags", INGEST_RULE,
+                  ["request-arrived-while-insert-in-flight", "insert-failed", "reconnect-refused-then-accepted", "request-answered-5xx", "request-answered-2xx"], design_ref="DESIGN.md §4 C01"),
+    "C02": ingest("C02", "deterministic simulation: every INSERT block observed at the ClickHouse boundary is decoded and checked row by row against the submitted body models",
+                  "Same runs as C01; every block must be rectangular, every row must be exactly one submitted row with all fields from that row, no row twice in a block. Row shapes include empty streams, >1000 points, >1 MiB chunks.",
+                  "profiles tables: only row counts are interpreted", INGEST_RULE,
+                  ["request-parsed-into-several-chunks", "request-arrived-while-insert-in-flight", "insert-failed"], design_ref="DESIGN.md §4 C02"),
+    "C03": ingest("C03", "deterministic simulation: conservation oracle - multiset of rows in successful blocks attributed to an acknowledged request equals the entries the generator put in its body",
+                  "For every acknowledged request of every log/metric protocol the rows in successful blocks are compared with the body model (timestamp, line/value, type, one fingerprint per stream); in fault-free runs every well-formed body must be acknowledged. The input space is sampled; body fragmentation, chunk thresholds, concurrent pushes and retries are simulated.",
+                  "the input quantifier is sampled by the generator; expected sample types follow the wire format (line only = log, value only = metric, both = undefined)", INGEST_RULE,
+                  ["request-parsed-into-several-chunks", "request-answered-2xx"], design_ref="DESIGN.md §4 C03"),
+    "C04": ingest("C04", "deterministic simulation of request histories across days, cache resets, failed series inserts, time zones; oracle = durable (fingerprint,type,day) index state at ack time versus the reader's own date bound",
+                  "Histories of pushes of recurring label sets over simulated time (30-minute cache reset, midnight crossings, five process time zones) with series/sample insert faults; at every ack each sample needs a successfully inserted series row of its type under a day the reader searches (lower bound taken from the tree's FormatFromDate). Fingerprint = function of the label set and label document = JSON of the set are checked over all rows of the run (sampled inputs).",
+                  "hash half of the property is only sampled; clustered mode skips the cache by design and is excluded from the index oracle", INGEST_RULE,
+                  ["zone-west-of-utc", "zone-east-of-utc", "insert-failed"], design_ref="DESIGN.md §4 C04"),
+    "C05": ingest("C05", "deterministic simulation with hostile clients mixed into honest traffic on every ingest route; oracles: one response in bounded simulated time, no unrecovered panic in any goroutine, no livelock (scheduler step bound + wall-clock watchdog), goroutine census after quiescence",
+                  "Truncated/bit-flipped/random/empty/badly-compressed/mis-typed/mis-routed bodies and extreme parameters are interleaved with honest pushes; the simrt.Go wrapper sees panics net/http would not, the census follows spawn ancestry, a goroutine that spins inside uninstrumented code is caught by the driver's wall-clock watchdog and attributed to its scenario.",
+                  "input space sampled by mutation recipes; a stall inside uninstrumented code is detected by wall clock (60-90 s), not by the step counter", INGEST_RULE,
+                  ["request-answered-5xx", "request-answered-2xx"], stall=True, design_ref="DESIGN.md §4 C05"),
     "C18": {
         "pkg": "ctrlsim", "test": "TestC18", "instrument": False, "level": "fault_enumeration",
         "technique": "deterministic simulation of process incarnations with statement-level fault/crash injection: exhaustive single-fault enumeration + seeded multi-fault histories (rapid), oracle = catalogue model + script-order tracker",
